@@ -5,7 +5,7 @@ alphabet to operands chosen from the pool. States are deduplicated by a canonica
 the partition of all cores by shared buffers); values are excluded (see DESIGN.md, C06, for the argument).
 After every transition the invariants are evaluated on every live object against the shadow (pure NumPy snapshots).
 """
-import itertools, collections, time, traceback, sys, hashlib
+import itertools, collections, time, traceback, sys, hashlib, json
 import numpy as np
 import multiprocessing as mp
 from vt.core import dense_cores, meta_problem
@@ -27,6 +27,7 @@ class System:
         self.n_init = len(objs)
         self.env = env or {}
         self.env0 = {k: np.array(v, copy=True) for k, v in self.env.items() if isinstance(v, np.ndarray)}
+        self.envl0 = {k: json.dumps(v) for k, v in self.env.items() if isinstance(v, list)}
         self.shadows = [Shadow(t, 'initial') for t in self.objs]
 
     def refresh(self, i, origin=None):
@@ -99,6 +100,9 @@ def check_invariants(sys_, target, mode, results, opname, tol=1e-9):
     for k, v0 in sys_.env0.items():
         if not (sys_.env[k].shape == v0.shape and np.array_equal(sys_.env[k], v0)):
             fails.append(('I4:input-array-changed:%s:%s' % (opname, k), 'harness-held array %s changed' % k))
+    for k, v0 in sys_.envl0.items():
+        if json.dumps(sys_.env[k]) != v0:
+            fails.append(('I4:input-list-changed:%s:%s' % (opname, k), 'harness-held list %s changed: %s -> %s' % (k, v0, json.dumps(sys_.env[k]))))
     return fails
 
 
@@ -136,6 +140,49 @@ def flatten_tts(res):
     return out
 
 
+def _flat_values(res, out, depth=0):
+    from scikit_tt.tensor_train import TT
+    if isinstance(res, TT):
+        out.append(('tt', dense_cores(res.cores) if meta_problem(res) is None else None))
+    elif isinstance(res, np.ndarray):
+        out.append(('arr', np.array(res)))
+    elif isinstance(res, (int, float, complex, np.number)):
+        out.append(('num', np.asarray(res)))
+    elif isinstance(res, (list, tuple)) and depth < 4:
+        for x in res:
+            _flat_values(x, out, depth + 1)
+
+
+def recompute_check(model, sys_, op, objs, res):
+    """I5: a value-level operation is a function of the VALUES of its operands — the same call on fresh, contiguous deep
+    copies of the operands (different object identities, different memory layout, later point in the process history) must
+    return the same values. Catches results that depend on memory layout (views, Fortran order), on object identity
+    (memoisation) or on hidden state left by earlier calls."""
+    from scikit_tt.tensor_train import TT
+    try:
+        fresh = [TT([np.array(c, order='C', copy=True) for c in o.cores]) for o in objs]
+        np.random.seed(12345)
+        res2 = op.run(sys_, *fresh)
+    except Exception as e:
+        return [('I5:recompute-raised:%s:%s' % (op.base, type(e).__name__), '%s on fresh copies of its operands raised %r' % (op.name, e))]
+    a, b = [], []
+    _flat_values(res, a); _flat_values(res2, b)
+    if len(a) != len(b):
+        return [('I5:recompute-differs:%s' % op.base, '%s returned %d values, %d on fresh copies of the same operands' % (op.name, len(a), len(b)))]
+    for (ka, va), (kb, vb) in zip(a, b):
+        if va is None or vb is None:
+            continue
+        if ka != kb or va.shape != vb.shape:
+            return [('I5:recompute-differs:%s' % op.base, '%s: result kind/shape %s %s vs %s %s on fresh copies' % (op.name, ka, va.shape, kb, vb.shape))]
+        if va.size and np.all(np.isfinite(va)) and np.all(np.isfinite(vb)):
+            sc = max(1.0, float(np.linalg.norm(vb.ravel())))
+            if np.linalg.norm((va - vb).ravel()) > 1e-8 * sc:
+                return [('I5:recompute-differs:%s' % op.base,
+                         '%s on the live operands differs from the same call on fresh contiguous copies of them by %.3e (layout, identity or hidden state dependence)'
+                         % (op.name, np.linalg.norm((va - vb).ravel())))]
+    return []
+
+
 class Model:
     """what a property module provides"""
     pools = {}      # name -> builder(seed) -> System
@@ -169,6 +216,8 @@ def apply_transition(model, sys_, tr, check=True):
     results = flatten_tts(res)
     if check:
         fails = check_invariants(sys_, tgt, op.mode, results, op.base)
+        if not fails and not op.inplace and getattr(model, 'recompute', True):
+            fails = recompute_check(model, sys_, op, objs, res)
     if tgt is not None and not fails:
         sys_.refresh(tgt, sys_.shadows[tgt].origin + '>' + op.base if sys_.shadows[tgt].origin.count('>') < 1 else None)
     joined = 0
